@@ -365,6 +365,53 @@ Example C03_ex_public_history :
    tally plain_vr (pub_total_ev 11) ex_s0 cs 0, tally plain_vr (pub_own_ev 10) ex_s0 cs 0) = (3, 3, 0, 3, 0, 3, 0).
 Proof. vm_compute. reflexivity. Qed.
 
+(* ---------- the whitelist's answers against what its admin intended ----------
+   Limit, allowance and stage cap reach the minter only through the whitelist's answers to
+   the very call.  For ANY intended per-address entitlement `ient` and stage cap `icap` (the
+   harness keeps them in its own ledger of the whitelist admin's accepted messages and
+   judges every mint against it): answers faithful to them keep the per-address count and
+   the stage total within the intended values; a count above the intended entitlement
+   means the whitelist answered with a larger figure. *)
+Theorem C03_faithful_whitelist_within_intended : forall vr (ient icap : N) s e fp wv stage proof alloc choice s' ms,
+  step vr s e fp wv (OMint stage proof alloc choice) = Ok (s', ms) ->
+  wl_phase s wv = true ->
+  (forall v ent, wv = Some v -> entitlement vr v proof alloc = Some ent -> ent <= ient) ->
+  (forall v sl, wv = Some v -> active_slot v = Some sl -> is_stage sl = true ->
+     exists lim, wv_stage_limit v = Some (Some lim) /\ lim <= icap) ->
+  exists v sl, wv = Some v /\ active_slot v = Some sl /\
+    get (slot_map s' sl) (e_sender e) <= ient /\
+    (is_stage sl = true -> stage_total s' sl <= icap).
+Proof. exact faithful_whitelist_within_intended. Qed.
+
+Theorem C03_excess_blames_whitelist_answer : forall vr (ient : N) s e fp wv stage proof alloc choice s' ms,
+  step vr s e fp wv (OMint stage proof alloc choice) = Ok (s', ms) ->
+  wl_phase s wv = true ->
+  forall v sl, wv = Some v -> active_slot v = Some sl ->
+    ient < get (slot_map s' sl) (e_sender e) ->
+    exists ent, entitlement vr v proof alloc = Some ent /\ ient < ent.
+Proof. exact excess_blames_whitelist_answer. Qed.
+
+Theorem C03_never_exceeds_intended : forall vr a sl (ient : N) s0 cs1 c s2 ms,
+  let s1 := run vr s0 cs1 in
+  cstep vr s1 c = Ok (s2, ms) ->
+  is_wl_mint_of a sl s1 c = true ->
+  (forall stage proof alloc choice v ent,
+     c_op c = OMint stage proof alloc choice -> c_wv c = Some v ->
+     entitlement vr v proof alloc = Some ent -> ent <= ient) ->
+  tally vr (wl_total_ev a sl) s0 (cs1 ++ [c]) (get (slot_map s0 sl) a) <= ient.
+Proof. exact never_exceeds_intended. Qed.
+
+Theorem C03_oe_faithful_whitelist_within_intended : forall vr (ient icap : N) s e fp wv stage proof alloc s' ms,
+  ostep vr s e fp wv (EMint stage proof alloc) = Ok (s', ms) ->
+  o_wl_phase s wv = true ->
+  (forall v ent, wv = Some v -> o_entitlement vr v alloc = Some ent -> ent <= ient) ->
+  (forall v sl, wv = Some v -> active_slot v = Some sl -> is_stage sl = true ->
+     exists lim, wv_stage_limit v = Some (Some lim) /\ lim <= icap) ->
+  exists v sl, wv = Some v /\ active_slot v = Some sl /\
+    get (o_slot_map s' sl) (e_sender e) <= ient /\
+    (is_stage sl = true -> o_stage_total s' sl <= icap).
+Proof. exact o_faithful_whitelist_within_intended. Qed.
+
 (* =====================================================================================
    Part 2: the three open-edition minters (MinterOpen.ostep; variant flags ov_flex,
    ov_merkle).  Same vocabulary: o_wl_phase, o_slot_map, o_stage_total, o_entitlement,
@@ -652,3 +699,7 @@ Print Assumptions C03_public_count_reported_with_migrates.
 Print Assumptions C03_whitelist_count_reported_with_migrates.
 Print Assumptions C03_stage_total_reported_with_migrates.
 Print Assumptions C03_oe_migrate_changes_nothing.
+Print Assumptions C03_faithful_whitelist_within_intended.
+Print Assumptions C03_excess_blames_whitelist_answer.
+Print Assumptions C03_never_exceeds_intended.
+Print Assumptions C03_oe_faithful_whitelist_within_intended.
